@@ -102,6 +102,12 @@ def unwrap_try(e):
     return e
 
 
+def only_calls(e, allowed):
+    """every call in expression e is one of `allowed` (short names): e is *that* value passed through conversions only,
+    not something else computed with its help"""
+    return all(short(x[1]) in allowed for x in walk_expr(e) if isinstance(x, tuple) and x and x[0] in ("call", "pure"))
+
+
 def mentions_call(e, pred):
     for x in walk_expr(e):
         if isinstance(x, tuple) and x and x[0] in ("call", "pure") and pred(x):
